@@ -80,9 +80,11 @@ def licSuffix (p : Path) : Path := if hasLicSuffix p then p else sibling p
 /-- `_determine_license_path`: `FILE.license` if it exists, else `FILE` -/
 def licPath (fs : Fs) (p : Path) : Path := if Fs.pathExists fs (sibling p) then sibling p else p
 
-/-- the `--recursive` expansion of `all_paths` -/
+/-- the `--recursive` expansion of `all_paths`: a named file stands for itself, a named
+    directory for the covered files below it, a symbolic link to a directory for nothing (it is
+    not followed: fixes/annotate-recursive-directory-link.diff) -/
 def expand (env : Env) (a : Args) (fs : Fs) : List Path :=
-  if a.recursive then a.paths.flatMap (fun p => if Fs.isFile fs p then [p] else env.below p)
+  if a.recursive then a.paths.flatMap (fun p => if Fs.isFile fs p then [p] else if Fs.isLink fs p then [] else env.below p)
   else a.paths
 
 /-- `all_paths`: a set of paths, directories dropped, `.license` preferred when it exists; a
